@@ -60,6 +60,10 @@ def optimize_layer_of_individual(
     parameter_values: tuple[float, ...] = individual.get_layer_parameter_values(layer_id=layer_id)
     n_parameters: int = len(parameter_values)
 
+    # A layer without parameters cannot be optimized
+    if n_parameters == 0:
+        return individual, 0
+
     def evaluation_callback(parameter_values: NDArray) -> Union[NDArray, float]:
         parameters: list[list[float]] = reshape(parameter_values, (-1, n_parameters)).tolist()
         batch_size: int = len(parameters)
